@@ -16,8 +16,9 @@ def normTok (be : Bool) : Token → Token
   | .offsetTable vs => .itemValue (vs.flatMap (enc32 be))
   | t => t
 
-/-- errors correspond; where the eager reader reports `UnexpectedItemHeader` the lazy reader panics -/
-def errRel (e : RErr) (le : LErr) : Prop := le = .err e ∨ (e = .unexpectedItemHeader ∧ le = .panic)
+/-- errors correspond (since fix b2f95f8 the lazy reader reports `UnexpectedItemHeader` where it used to
+panic, like the eager reader) -/
+def errRel (e : RErr) (le : LErr) : Prop := le = .err e
 
 /-- the value of a pixel data item as both readers see it: the eager reader needs the declared number of
 bytes, the lazy consumer takes what is there; an offset table is re-encoded from the numbers read -/
@@ -197,11 +198,15 @@ def AnomStep (s : RState) : Bool :=
     else Anom s)
 
 /-- outcome of one eager `next()` vs one lazy `advance` + `into_owned` -/
-def StepRes : Option (Except RErr Token) × RState → Option (Except LErr Token) × LState → Prop
+def StepRes (be : Bool) : Option (Except RErr Token) × RState → Option (Except LErr Token) × LState → Prop
   | (none, _), (none, _) => True
   | (some (.error e), _), (some (.error le), _) => errRel e le
-  | (some (.ok t), s'), (some (.ok t'), l') => (∃ be, t' = normTok be t) ∧ l' = toLazy s'
+  | (some (.ok t), s'), (some (.ok t'), l') => t' = normTok be t ∧ l' = toLazy s'
   | _, _ => False
+
+theorem update_dec (s : RState) : s.updateSeqDelimiters.2.dec = s.dec := by
+  unfold RState.updateSeqDelimiters
+  repeat' (first | split | dsimp only)
 
 theorem nextOwned_body (l : LState) (hb : l.hardBreak = false) (hp : l.peeked = none)
     (hc : l.delimiterCheckPending = false) : l.nextOwned = bodyOwned l := by
@@ -214,7 +219,7 @@ reader and one `advance()` + `into_owned()` of the lazy reader, started in corre
 same way (both end / corresponding errors / the same token up to the offset-table representation) and
 leave corresponding states. For every state, hence every input. -/
 theorem step_sim (s : RState) (h : AnomStep s = false) (fuel : Nat) :
-    StepRes (s.next (fuel + 1)) (toLazy s).nextOwned := by
+    StepRes s.dec.ts.bigEndian (s.next (fuel + 1)) (toLazy s).nextOwned := by
   unfold AnomStep at h
   cases hb : s.hardBreak
   · simp only [hb, Bool.not_false, Bool.true_and] at h
@@ -245,7 +250,7 @@ theorem step_sim (s : RState) (h : AnomStep s = false) (fuel : Nat) :
             | none => simp [SimRes] at hb'
             | some x => cases x with
               | error e => simp [SimRes] at hb'
-              | ok t' => simp only [SimRes] at hb'; exact ⟨⟨_, hb'.1⟩, hb'.2⟩
+              | ok t' => simp only [SimRes] at hb'; exact hb'
     · -- delimiter check first
       simp only [hp, if_true] at h
       have hu := update_sim s
@@ -285,7 +290,7 @@ theorem step_sim (s : RState) (h : AnomStep s = false) (fuel : Nat) :
               | (injection hus with h1 h2; cases h1; done)
           rcases hn : s1.nextBody with ⟨r, s''⟩
           rw [hn] at hb'
-          show StepRes _ (bodyOwned (toLazy s1))
+          show StepRes _ _ (bodyOwned (toLazy s1))
           rcases hl2 : bodyOwned (toLazy s1) with ⟨lr, l'⟩
           rw [hl2] at hb'
           cases r with
@@ -303,7 +308,11 @@ theorem step_sim (s : RState) (h : AnomStep s = false) (fuel : Nat) :
                 | none => simp [SimRes] at hb'
                 | some x => cases x with
                   | error e => simp [SimRes] at hb'
-                  | ok t' => simp only [SimRes] at hb'; exact ⟨⟨_, hb'.1⟩, hb'.2⟩
+                  | ok t' =>
+                    simp only [SimRes] at hb'
+                    have hdd : s1.dec = s.dec := by have := update_dec s; rw [hus] at this; exact this
+                    rw [hdd] at hb'
+                    exact hb'
   · -- fused
     unfold RState.next LState.nextOwned LState.advance
     simp [hb, toLazy, StepRes]
@@ -398,6 +407,7 @@ theorem lazy_run_eq_eager_run : ∀ (fuel : Nat) (s : RState), (eagerRunA fuel s
             | ok t' =>
               simp only [StepRes] at hst
               obtain ⟨htok, hl'⟩ := hst
+              have htok : TokRel t t' := ⟨_, htok⟩
               subst hl'
               simp only at h ⊢
               have ih := lazy_run_eq_eager_run fuel s' h
